@@ -48,7 +48,9 @@ Expected2(o, st, e) ==
 
 C03(o) ==
   LET st == EvalState(o)
-      bad == {i \in DOMAIN Res(o) : Res(o)[i].evaluation.value * U(o) # Expected2(o, st, Res(o)[i])}
+      (* value x U = expected (unit squared), written without the product: a wrong value may be large *)
+      bad == {i \in DOMAIN Res(o) : LET e2 == Expected2(o, st, Res(o)[i]) IN
+                                      ~(e2 % U(o) = 0 /\ Res(o)[i].evaluation.value = e2 \div U(o))}
   IN IF bad = {} THEN {}
      ELSE IF Method(o) = "weightedSum"
              /\ \A i \in DOMAIN Res(o) :
